@@ -331,6 +331,34 @@ class Inliner:
             self.ensure(callee)
         return callee, recv, closure
 
+    def _class_constant(self, fi: FuncInfo, node: ast.Attribute) -> Optional[ast.AST]:
+        """self._X / cls._X where _X is assigned once, in a class body of the MRO, to a tuple / list of constants (a name table)
+        and no class of the hierarchy stores into it anywhere: the display itself."""
+        if not (isinstance(node.value, ast.Name) and is_private(node.attr)) or fi.cls is None or fi.is_static:
+            return None
+        params = fi.params()
+        if not params or node.value.id != params[0]:
+            return None
+        cls = self._recv_cls or fi.cls
+        owners = [k for k in cls.mro_classes() if node.attr in k.class_attrs]
+        if len(owners) != 1:
+            return None
+        v = owners[0].class_attrs[node.attr]
+        if not (isinstance(v, (ast.Tuple, ast.List)) and v.elts and all(isinstance(e, ast.Constant) for e in v.elts)):
+            return None
+        family = list(self.prog.subclasses(owners[0], include_self=True, include_dead=True))
+        for k in family:
+            if k is not owners[0] and (node.attr in k.class_attrs or node.attr in k.methods):
+                return None
+            for m in k.methods.values():
+                for x in ast.walk(m.node):
+                    if isinstance(x, ast.Attribute) and x.attr == node.attr and isinstance(x.ctx, (ast.Store, ast.Del)):
+                        return None
+                    if isinstance(x, ast.Call) and isinstance(x.func, ast.Name) and x.func.id in ("setattr", "delattr") and \
+                            any(isinstance(a, ast.Constant) and a.value == node.attr for a in x.args):
+                        return None  # (names computed at run time are assumed not to spell a private table's name)
+        return ast.Tuple(elts=[copy.deepcopy(e) for e in v.elts], ctx=ast.Load())
+
     def _resolve_property(self, fi: FuncInfo, node: ast.Attribute) -> Optional[FuncInfo]:
         """self._x where _x is a read-only private property of the class that no subclass re-defines."""
         if not (isinstance(node.value, ast.Name) and is_private(node.attr)) or fi.cls is None or fi.is_static or fi.is_classmethod:
@@ -760,6 +788,9 @@ class Inliner:
                 node = self.generic_visit(node)
                 if not isinstance(node.ctx, ast.Load):
                     return node
+                const = inl._class_constant(fi, node)
+                if const is not None:
+                    return ast.copy_location(copy.deepcopy(const), node)
                 callee = inl._resolve_property(fi, node)
                 if callee is None:
                     return node
